@@ -84,3 +84,41 @@ func Harness_C15_serialize() {
 		assert(v1[i].integer == v2[i].integer, "values-order-independent")
 	}
 }
+
+// Harness_C15_values: KEYS / VALUES listings of a map with `entries` integer entries come out in key order
+// for every iteration order of the underlying Go map.
+func Harness_C15_values() {
+	n := param("entries")
+	mp := NewMapValue()
+	want := make([]int64, n)
+	for j := 0; j < n; j++ {
+		want[j] = int64(nondetI8("val"))
+		mp.Set(VmValueFromInt64(int64(j+1)), VmValueFromInt64(want[j]))
+	}
+	for r := 0; r < c15Runs(); r++ {
+		ks := mp.GetMapSortedKey()
+		vs, err := mp.GetValues()
+		assert(err == nil && len(ks) == n && len(vs) == n, "listing-complete")
+		if err != nil || len(ks) != n || len(vs) != n {
+			return
+		}
+		for i := 0; i < n; i++ {
+			assert(ks[i].integer == int64(i+1), "keys-in-key-order")
+			assert(vs[i].integer == want[i], "values-in-key-order")
+		}
+	}
+}
+
+// Harness_C15_large: the same listing claim for a map just above the VM's array-size constant (no cap applies
+// to maps): every entry is listed and serialized (iteration order left to the engine's insertion order here).
+func Harness_C15_large() {
+	n := param("entries")
+	mp := NewMapValue()
+	pv := int64(nondetI8("val"))
+	for j := 0; j < n; j++ {
+		mp.Set(VmValueFromInt64(int64(j+1)), VmValueFromInt64(pv))
+	}
+	ks := mp.GetMapSortedKey()
+	vs, err := mp.GetValues()
+	assert(err == nil && len(ks) == n && len(vs) == n, "large-listing-complete")
+}
